@@ -35,6 +35,8 @@ CLASH = [
     "typedef int T, U, V; T f(U u, V v) { for (T i = 0; i < u; i++) { U T; T = v; } return (T)u; }",
     "int x = 'a' + L'b' + sizeof(int); char *s = \"str\" \"ing\"; double d = 1.5e3;",
 ]
+# texts whose FIRST token is an identifier that another text of the pool declares as a typedef (or not)
+FIRST_ID = ["T x;", "T * x;", "T (x);", "U(a) { return a; }", "V;", "T", "U u = 1;", "x = T;", "T: ;", "V v, *w;"]
 TAILS = ["@", "`", "\\", "\"unterminated", "'", "/* c", "// c", "#define X 1", "# 7 \"z.h\"", "#pragma", "#pragma p q",
          "08", "''", "{", "{ {", "}", "(", "struct Z {", "void q(void) { int T;", "typedef int", "int a[] = { [", "0x"]
 
@@ -45,7 +47,7 @@ def build_pool(tier, seed):
     zoo = [t for _, t in corpus.zoo()]
     bases += rnd.sample(zoo, 10 if tier == "quick" else 40)
     pool = []
-    for b in bases:
+    for b in bases + FIRST_ID:
         pool.append(b)
     target = 110 if tier == "quick" else 220
     # truncations and injections
